@@ -46,6 +46,18 @@ def apply_history(ctx, fore, base, hist):
         if h[0] == "scale":
             fore.scale(h[1])
             factor = h[1]
+        elif h[0] == "scale_array":
+            # per-cell, per-magnitude-bin or full array of factors (broadcast against the rate array)
+            nc_, nm_ = base.shape
+            if h[1] == "row":
+                arr = numpy.array([[1.0 + 0.25 * (j % 5) for j in range(nm_)]])
+            elif h[1] == "col":
+                arr = numpy.array([[0.5 + 0.125 * (i % 7)] for i in range(nc_)])
+            else:
+                arr = numpy.array([[0.25 * (1 + (3 * i + j) % 6) for j in range(nm_)] for i in range(nc_)])
+            fore.scale(arr)
+            factor = numpy.broadcast_to(arr, base.shape).copy()
+            RT[0] = 1e-12
         elif h[0] == "read":
             # read-only requests between scalings (they must leave the forecast as it is)
             from csep.core.catalogs import CSEPCatalog
@@ -69,6 +81,11 @@ def apply_history(ctx, fore, base, hist):
     return factor
 
 
+def FAC(factor, c, m):
+    """the factor in force for cell c, magnitude bin m (scalar, or array after scale(<ndarray>))"""
+    return float(factor[c, m]) if isinstance(factor, numpy.ndarray) else factor
+
+
 def check_forecast_common(ctx, fore, base, hist, edges):
     """magnitudes, sums, marginals, scaling"""
     if [float(m) for m in fore.magnitudes] != [float(e) for e in edges]:
@@ -87,8 +104,11 @@ def check_forecast_common(ctx, fore, base, hist, edges):
         ctx.violation("data_shape", {"got": list(data.shape), "want": list(base.shape)})
         return False
     if not numpy.allclose(data, want, rtol=RT[0], atol=0):
-        ctx.violation("scaling_not_absolute_and_linear", {"history": hist, "factor_expected": factor,
+        ctx.violation("scaling_not_absolute_and_linear", {"history": hist, "factor_expected": factor if not isinstance(factor, numpy.ndarray) else "array",
                                                          "ratio_seen": float(data.ravel()[numpy.argmax(base.ravel())] / base.max()) if base.max() > 0 else None})
+    if numpy.ndim(fore.sum()) != 0:
+        ctx.violation("sum_is_not_a_scalar", {"shape": list(numpy.shape(fore.sum())), "history": hist})
+        return False
     tot = float(fore.sum())
     wt = math.fsum(want.ravel().tolist())
     if abs(tot - wt) > (RT[0] + 1e-12) * max(abs(wt), 1e-300):
@@ -99,8 +119,9 @@ def check_forecast_common(ctx, fore, base, hist, edges):
             ctx.unexpected(o, name)
         elif abs(float(numpy.sum(o.value)) - tot) > 1e-12 * max(abs(tot), 1e-300):
             ctx.violation(name + "_do_not_sum_to_total", {"got": float(numpy.sum(o.value)), "total": tot})
-    if float(fore.event_count) != tot:
-        ctx.violation("event_count_differs_from_sum", None)
+    ec = fore.event_count
+    if numpy.ndim(ec) != 0 or float(ec) != tot:
+        ctx.violation("event_count_differs_from_sum", {"ndim": int(numpy.ndim(ec))})
     return factor
 
 
@@ -179,27 +200,29 @@ def check_cart(ctx, case):
         sure, cands = L.classify(x, y, True)
 
         def bucket(name, got_cell):
+            """got_cell: None = rejected, an index, or a list of candidate source cells (rate values can coincide after array scaling)"""
             if alt is not None:
                 s2, c2 = alt.classify(x, y, True)
-                if (got_cell is None and not s2) or (got_cell is not None and got_cell in c2):
+                gl = got_cell if isinstance(got_cell, list) else [got_cell]
+                if (got_cell is None and not s2) or (got_cell is not None and any(g in c2 for g in gl)):
                     return name + (":inferred_spacing_roundoff" if lattice.short_decimal(case["region"]) else ":inferred_nondecimal_spacing_roundoff")
             return name
         if o.ok:
             got = float(o.value[0])
             if not cands:
-                src = [c for c in range(nc) if abs(float(rates[c, mb]) * factor - got) <= RT[0] * abs(got)]
-                ctx.violation(bucket("lookup_outside_region_returned_rate", src[0] if src else -1),
+                src = [c for c in range(nc) if abs(float(rates[c, mb]) * FAC(factor, c, mb) - got) <= RT[0] * abs(got)]
+                ctx.violation(bucket("lookup_outside_region_returned_rate", src if src else -1),
                               {"pt": [x, y, mv], "got": got, "from_cell": src[:3], "region_dh": float(region.dh)}, c1)
                 continue
-            allowed = {float(rates[c, mb]) * factor for c in cands}
+            allowed = {float(rates[c, mb]) * FAC(factor, c, mb) for c in cands}
             if not any(abs(got - a) <= RT[0] * abs(a) for a in allowed):
                 # which cell did it come from?
-                src = [c for c in range(nc) if abs(float(rates[c, mb]) * factor - got) <= RT[0] * abs(got)]
-                ctx.violation(bucket("lookup_returns_other_rows_rate", src[0] if src else -1),
+                src = [c for c in range(nc) if abs(float(rates[c, mb]) * FAC(factor, c, mb) - got) <= RT[0] * abs(got)]
+                ctx.violation(bucket("lookup_returns_other_rows_rate", src if src else -1),
                               {"pt": [x, y, mv], "got": got, "want": sorted(allowed)[:3], "spot": ["lower_corner", "centre", "near_far_corner"][si],
                                "region_dh": float(region.dh), "from_cell": src[:3], "want_cell": sorted(cands)[:3]}, c1)
             elif active and sure:
-                good.append((x, y, mv, float(rates[k, mb]) * factor))
+                good.append((x, y, mv, float(rates[k, mb]) * FAC(factor, k, mb)))
         else:
             if not isinstance(o.exc, ValueError):
                 ctx.unexpected(o, "get_rates", c1)
@@ -271,7 +294,7 @@ def check_quad(ctx, case):
             if not o.ok:
                 ctx.unexpected(o, "get_rates:" + case["k"], c1)
                 return
-            want = float(rates[i, mb]) * factor
+            want = float(rates[i, mb]) * FAC(factor, i, mb)
             if len(o.value) != 1 or abs(float(o.value[0]) - want) > RT[0] * abs(want):
                 ctx.violation("lookup_returns_other_rows_rate:" + case["k"], {"pt": [x, y, mv], "got": [float(v) for v in o.value], "want": want}, c1)
                 return
@@ -296,7 +319,8 @@ def nontrivial(case):
 def histories():
     step = st.one_of(st.tuples(st.just("scale"), st.sampled_from([0.5, 2.0, 1.0, 0.1, 3.0, 1e-3, 7.25])),
                      st.tuples(st.just("date"), st.sampled_from([-10, 0, 1, 200, 365, 900, 1825, 1826, 3000])),
-                     st.tuples(st.just("read"), st.sampled_from([0, 1])))
+                     st.tuples(st.just("read"), st.sampled_from([0, 1])),
+                     st.tuples(st.just("scale_array"), st.sampled_from(["row", "col", "full"])))
     return st.lists(step.map(list), max_size=5)
 
 
